@@ -50,6 +50,7 @@ def transpose_case(ty, M, N, cfg, kind):
             ens.append((b, j * M + i, x + x if kind == 'trans_expr' else x))
     ens.sort(key=lambda t: t[1])
     mode = 'UF' if (kind == 'trans_expr' and ty.kind == 'float') else 'SYM'
+    if mode == 'UF': cfg = Cfg(cfg.isa, cfg.std, cfg.macros, pipe='P0')      # uninterpreted arithmetic needs the pipeline without instcombine
     return Case('C14/%s/%s/%dx%d/%s' % ('transpose-' + kind, ty.name, M, N, cfg.tag()), 'C14', body, [a, b], ens, mode, cfg)
 
 def permute_case(ty, shape, p, cfg, kind='permute'):
